@@ -164,8 +164,15 @@ func (s *triplestore) adjacent(node uint64, direction graph.Direction) cardinali
 				nodes.Add(edge.Start)
 
 			default:
-				nodes.Add(edge.End)
-				nodes.Add(edge.Start)
+				// Both directions: the adjacent node is the opposite endpoint of the edge. The
+				// node itself is adjacent only through a self loop.
+				if edge.Start == node {
+					nodes.Add(edge.End)
+				}
+
+				if edge.End == node {
+					nodes.Add(edge.Start)
+				}
 			}
 		}
 
